@@ -272,8 +272,10 @@ class TextLinesCursor(Cursor):
         if not regex:
             return False
         res = False
-        while self._matchre_fast(regex):
+        p = self.pos
+        while self._matchre_fast(regex) and self.pos > p:
             res = True
+            p = self.pos
         return res
 
     def _matchre_fast(self, pattern: str | re.Pattern | None) -> bool:
